@@ -141,13 +141,11 @@ fn expected_text(item: &str) -> &'static str {
 }
 
 fn nominal_cfm(f: F) -> &'static [u8] {
-    match f {
-        F::Rc4 => b"V2",
-        F::Aes128 => b"AESV2",
-        F::Aes256 => b"AESV3",
-        F::Identity => b"None",
-    }
+    menu::nominal_cfm(f)
 }
+
+/// finding: lopdf encrypts / decrypts the Contents value of a signature dictionary like any other string
+const SIG_FINDING: &str = "sig-contents-not-exempt";
 
 fn identity_named_not_in_cf(c: &Config) -> bool {
     c.has_filters() && (c.stm == F::Identity || c.strf == F::Identity) && !c.identity_in_cf && !c.custom_identity
@@ -276,7 +274,9 @@ fn a_judge(c: &Case, art: &Artefact, k: Option<&Counters>) -> Result<Vec<Fail>, 
                 inc(&k.fields_equal, 1);
             }
         } else {
-            fails.push(Fail { item: format!("A:field {}", name), detail: format!("lopdf wrote {} , the standard defines {}", hex(got), hex(want)), finding });
+            let printable = |b: &[u8]| !b.is_empty() && b.iter().all(|x| (0x20..0x7f).contains(x));
+            let text = if printable(got) && printable(want) { format!(" (as text: {} / {})", String::from_utf8_lossy(got), String::from_utf8_lossy(want)) } else { String::new() };
+            fails.push(Fail { item: format!("A:field {}", name), detail: format!("lopdf wrote {} , the standard defines {}{}", hex(got), hex(want), text), finding });
         }
     };
     // --- fields every revision has
@@ -291,6 +291,25 @@ fn a_judge(c: &Case, art: &Artefact, k: Option<&Counters>) -> Result<Vec<Fail>, 
             if f != F::Identity {
                 let got = enc.cf.get(&c.cfg.filter_name(f)).cloned().unwrap_or_default();
                 eq(&mut fails, "CFM", &got, nominal_cfm(f), None);
+            }
+        }
+        // every crypt filter registered with lopdf that neither StmF nor StrF names must be defined in the written
+        // CF dictionary as well: a stream's own Crypt filter may name it
+        for (name, f) in c.cfg.extra_entries() {
+            match enc.cf.get(&name) {
+                Some(got) => eq(&mut fails, &format!("CF /{} CFM", String::from_utf8_lossy(&name)), got, nominal_cfm(f), None),
+                None => fails.push(Fail {
+                    item: format!("A:field CF /{}", String::from_utf8_lossy(&name)),
+                    detail: format!(
+                        "the encryption dictionary lopdf wrote has no CF entry /{} (CF holds [{}]; StmF /{}, StrF /{}) although the EncryptionState it was encoded from registers that crypt filter (CFM /{}): a stream whose Crypt filter names it cannot be decrypted by any reader",
+                        String::from_utf8_lossy(&name),
+                        enc.cf.keys().map(|k| format!("/{}", String::from_utf8_lossy(k))).collect::<Vec<_>>().join(" "),
+                        String::from_utf8_lossy(enc.stmf.as_deref().unwrap_or(b"(absent)")),
+                        String::from_utf8_lossy(enc.strf.as_deref().unwrap_or(b"(absent)")),
+                        String::from_utf8_lossy(nominal_cfm(f))
+                    ),
+                    finding: None,
+                }),
             }
         }
     }
@@ -404,6 +423,9 @@ fn a_judge(c: &Case, art: &Artefact, k: Option<&Counters>) -> Result<Vec<Fail>, 
         if c.kind == DocKind::CryptArray {
             cands.push(("crypt-decodeparms-array", Quirks { crypt_parms_array_ignored: true, ..Default::default() }));
         }
+        if c.kind == DocKind::SigDict {
+            cands.push((SIG_FINDING, Quirks { sig_contents_processed: true, ..Default::default() }));
+        }
         let finding = cands.into_iter().find(|(_, q)| ref_content(None, &plain, container, &enc, enc_id, &key, *q).is_none()).map(|x| x.0);
         fails.push(Fail { item: format!("A:content opened as {}", rname), detail: problem, finding });
     }
@@ -462,6 +484,9 @@ fn build_b(c: &Case, v: BVariant) -> Result<BDoc, String> {
             cf.push((name, if v.cfm_identity { b"Identity".to_vec() } else { b"None".to_vec() }));
         }
     }
+    for (name, f) in c.cfg.extra_entries() {
+        cf.push((name, if f == F::Identity && v.cfm_identity { b"Identity".to_vec() } else { nominal_cfm(f).to_vec() }));
+    }
     let fname = |f: F| -> Option<Vec<u8>> {
         if f == F::Identity && !c.cfg.custom_identity && c.omit_identity {
             None
@@ -512,8 +537,11 @@ fn build_b(c: &Case, v: BVariant) -> Result<BDoc, String> {
     if let Some((p, e)) = rep.errors.first() {
         return Err(format!("reference cannot encrypt {}: {}", p, e));
     }
-    let enc_id = (doc.max_id + 1, 0);
-    doc.max_id += 1;
+    // the encryption dictionary takes the lowest object number the document does not use: for documents with gaps
+    // in their numbering it then sits in FRONT of objects that have to be processed (lopdf itself always appends it)
+    let used: std::collections::BTreeSet<u32> = doc.objects.keys().map(|k| k.0).collect();
+    let enc_id = ((1u32..).find(|n| !used.contains(n)).unwrap(), 0);
+    doc.max_id = doc.max_id.max(enc_id.0);
     doc.objects.insert(enc_id, Object::Dictionary(dict));
     doc.trailer.set("Encrypt", Object::Reference(enc_id));
     Ok(BDoc { plain, doc, enc, id0, op, up })
@@ -645,6 +673,9 @@ fn run_b(c: &Case, k: Option<&Counters>) -> Result<Vec<Fail>, String> {
     }
     if c.kind == DocKind::CryptArray {
         cands.push(("crypt-decodeparms-array", Box::new(|v| v.quirks.crypt_parms_array_ignored = true)));
+    }
+    if c.kind == DocKind::SigDict {
+        cands.push((SIG_FINDING, Box::new(|v| v.quirks.sig_contents_processed = true)));
     }
     // variants to try: every single candidate, then every pair - evaluated lazily and cached
     let mut sets: Vec<Vec<usize>> = (0..cands.len()).map(|i| vec![i]).collect();
@@ -892,6 +923,9 @@ fn k_judge_q(c: &Case, art: &KArtefact, k: Option<&Counters>, q: Quirks) -> Resu
             eq(&mut fails, what, "EncryptMetadata", e.encrypt_metadata.to_string(), enc1.encrypt_metadata.to_string());
             eq(&mut fails, what, "method of StmF", method(&e, &e.stmf), method(&enc1, &enc1.stmf));
             eq(&mut fails, what, "method of StrF", method(&e, &e.strf), method(&enc1, &enc1.strf));
+            // every crypt filter the first protection defines - a stream's own Crypt filter may name any of them
+            let cf_map = |x: &EncDict| x.cf.iter().map(|(n, m)| format!("/{} -> /{}", String::from_utf8_lossy(n), String::from_utf8_lossy(m))).collect::<Vec<_>>().join(", ");
+            eq(&mut fails, what, "crypt filters defined in CF", format!("[{}]", cf_map(&e)), format!("[{}]", cf_map(&enc1)));
         }
         if what == "re-encrypted document" {
             enc3 = Some(e);
@@ -1035,7 +1069,7 @@ fn configs_a() -> Vec<Config> {
     let mut v = menu::configs();
     for (ver, other) in [(Ver::V4, F::Aes128), (Ver::V5, F::Aes256)] {
         for (stm, strf) in [(F::Identity, other), (other, F::Identity), (F::Identity, F::Identity)] {
-            v.push(Config { ver, stm, strf, identity_in_cf: false, custom_identity: true, em: true });
+            v.push(Config { ver, stm, strf, identity_in_cf: false, custom_identity: true, em: true, extra_cf: false });
         }
     }
     v
@@ -1165,7 +1199,9 @@ fn kept_cases(run: &Run) -> Vec<Case> {
     let pairs = pairs();
     let all = menu::all_flags();
     for source in ['B', 'A'] {
-        let cfgs = if source == 'A' { configs_a() } else { configs_b() };
+        let mut cfgs = if source == 'A' { configs_a() } else { configs_b() };
+        // configurations whose CF holds more filters than StmF / StrF name: the kept state must keep (and re-encode) them all
+        cfgs.extend(menu::configs_extra_cf());
         for (ci, cfg) in cfgs.iter().enumerate() {
             let r = cfg.revision();
             let r6 = r == 6;
@@ -1173,10 +1209,19 @@ fn kept_cases(run: &Run) -> Vec<Case> {
             if cfg.has_filters() && !cfg.em {
                 kinds.push(DocKind::Streams);
             }
+            if cfg.extra_cf {
+                kinds = vec![DocKind::CryptNamed];
+            } else if representative(cfg) {
+                kinds.push(DocKind::KeyNames);
+            }
             for (ki, kind) in kinds.into_iter().enumerate() {
                 for (pi, pair) in pairs.iter().enumerate() {
                     let (pname, user, owner) = (&pair.0, &pair.1, &pair.2);
                     if !pair_ok(r, pname, user, owner) {
+                        continue;
+                    }
+                    // the two newer documents: three password pairs (thorough: all), revision 6 quick: EncryptMetadata true
+                    if matches!(kind, DocKind::CryptNamed | DocKind::KeyNames) && !thorough && (!quick3(pname) || (r6 && !cfg.em)) {
                         continue;
                     }
                     if r6 && !thorough && pname != "distinct" && pname != "empty_user" {
@@ -1203,7 +1248,7 @@ fn kept_cases(run: &Run) -> Vec<Case> {
                     };
                     // spellings of the reference-side dictionary the kept state has to survive
                     let mut spellings: Vec<(bool, bool)> = vec![(!matches!(cfg.ver, Ver::R5 | Ver::V5), false)];
-                    if source == 'B' && pname == "distinct" && kind == DocKind::Page {
+                    if source == 'B' && pname == "distinct" && (kind == DocKind::Page || kind == DocKind::CryptNamed) {
                         if matches!(cfg.ver, Ver::V4 | Ver::V2(40)) {
                             spellings.push((false, false));
                         }
@@ -1245,6 +1290,105 @@ fn kept_cases(run: &Run) -> Vec<Case> {
                             }
                         }
                     }
+                }
+            }
+        }
+    }
+    out
+}
+
+fn quick3(pname: &str) -> bool {
+    matches!(pname, "distinct" | "empty_user" | "both_empty")
+}
+
+/// Extra-crypt-filter family: configurations whose CF dictionary holds MORE crypt filters than StmF / StrF name x
+/// documents whose streams carry Crypt overrides (naming every CF entry, /Identity, nothing; dictionary and array form of
+/// /DecodeParms), both directions, in memory and through lopdf's writer and loader; direction B also with StmF / StrF
+/// left out (default /Identity) where the configuration names /Identity.
+fn extra_cf_cases(run: &Run) -> Vec<Case> {
+    let mut out = vec![];
+    let pairs = pairs();
+    let all = menu::all_flags();
+    for dir in ['A', 'B'] {
+        for (ci, cfg) in menu::configs_extra_cf().iter().enumerate() {
+            let r = cfg.revision();
+            for (ki, kind) in [DocKind::CryptNamed, DocKind::Crypt, DocKind::CryptArray, DocKind::Page].into_iter().enumerate() {
+                for (pi, pair) in pairs.iter().enumerate() {
+                    if !pair_ok(r, &pair.0, &pair.1, &pair.2) {
+                        continue;
+                    }
+                    let in_quick = if r == 6 { cfg.em && ki < 2 && pair.0 == "distinct" } else { quick3(&pair.0) };
+                    if !(in_quick || (run.thorough && (r != 6 || quick3(&pair.0)))) {
+                        continue;
+                    }
+                    let mut spellings = vec![false];
+                    if dir == 'B' && (cfg.stm == F::Identity || cfg.strf == F::Identity) {
+                        spellings.push(true);
+                    }
+                    for omit_identity in spellings {
+                        let base = Case { pattern: (ci + ki + pi) % 3, omit_identity, ..base_case(dir, cfg, kind, pair, all) };
+                        out.push(base.clone());
+                        if dir == 'B' || (!pair.1.is_empty() && !pair.2.is_empty()) {
+                            out.push(Case { via_file: true, table: (ci + ki + pi) % 2 == 0, ..base });
+                        }
+                    }
+                }
+            }
+        }
+    }
+    out
+}
+
+/// Key-name family: strings in literal and hexadecimal format under key names that look special, in ordinary
+/// dictionaries at every placement (all must be processed), and real signature dictionaries (the hexadecimal Contents
+/// is exempt, ISO 32000-2 7.6.2; everything else in them is processed) x one configuration per key-derivation variant
+/// and the V4 configurations with different methods for strings and streams x password pairs, both directions.
+fn key_cases(run: &Run) -> Vec<Case> {
+    let mut out = vec![];
+    let pairs = pairs();
+    let all = menu::all_flags();
+    for dir in ['A', 'B'] {
+        let cfgs = if dir == 'A' { configs_a() } else { configs_b() };
+        for (ci, cfg) in cfgs.iter().filter(|c| representative(c) || (c.has_filters() && c.strf != c.stm && !c.custom_identity && !c.identity_in_cf && c.em)).enumerate() {
+            let r = cfg.revision();
+            for (ki, kind) in [DocKind::KeyNames, DocKind::SigDict].into_iter().enumerate() {
+                for (pi, pair) in pairs.iter().enumerate() {
+                    if !pair_ok(r, &pair.0, &pair.1, &pair.2) {
+                        continue;
+                    }
+                    let in_quick = if r == 6 { cfg.em && pair.0 == "distinct" } else { quick3(&pair.0) || pair.0 == "latin1" };
+                    if !(in_quick || (run.thorough && (r != 6 || quick3(&pair.0)))) {
+                        continue;
+                    }
+                    let base = Case { pattern: (ci + ki + pi) % 3, ..base_case(dir, cfg, kind, pair, all) };
+                    out.push(base.clone());
+                    if dir == 'B' || (!pair.1.is_empty() && !pair.2.is_empty()) {
+                        out.push(Case { via_file: true, table: (ci + ki + pi) % 2 == 1, ..base });
+                    }
+                }
+            }
+        }
+    }
+    out
+}
+
+/// Long-password family (revisions 5 and 6): passwords of around and beyond 127 UTF-8 bytes made of 2-, 3- and 4-byte
+/// characters, both directions (next to the three pairs with a character across byte 127 of the main product).
+fn long_password_cases(run: &Run) -> Vec<Case> {
+    let mut out = vec![];
+    let all = menu::all_flags();
+    let r6_quick = ["long_cyrillic", "long_cjk", "mixed_scripts", "prep_shrinks_below_127", "short_user_long_owner"];
+    for dir in ['A', 'B'] {
+        for (ci, cfg) in configs_b().iter().filter(|c| c.revision() >= 5 && c.em && c.stm == F::Aes256 && c.strf == F::Aes256 && !c.custom_identity).enumerate() {
+            for (pi, (n, u, o)) in menu::long_nonlatin_pairs().into_iter().enumerate() {
+                if cfg.revision() == 6 && !run.thorough && !r6_quick.contains(&n) {
+                    continue;
+                }
+                let pair = (n.to_string(), u, o);
+                let base = Case { pattern: (ci + pi) % 3, ..base_case(dir, cfg, DocKind::Page, &pair, all) };
+                out.push(base.clone());
+                if dir == 'B' || (!pair.1.is_empty() && !pair.2.is_empty()) {
+                    out.push(Case { via_file: true, table: (ci + pi) % 2 == 0, ..base });
                 }
             }
         }
@@ -1473,6 +1617,16 @@ fn main() {
     run.assume("documents that combine two catalogued deviations (strings in stream dictionaries together with a non-conforming Identity spelling) are left out so that every failing item is explained by exactly one finding");
     let mut list = cases(&run);
     let (deep, idf, kept) = (deep_cases(&run), id_cases(&run), kept_cases(&run));
+    let (xcf, keyf, longf) = (extra_cf_cases(&run), key_cases(&run), long_password_cases(&run));
+    run.set("cases_extra_crypt_filter_family", json!(xcf.len()));
+    run.set("cases_key_name_family", json!(keyf.len()));
+    run.set("cases_long_password_family", json!(longf.len()));
+    run.set("cases_kept_state_direction_K_with_extra_crypt_filters", json!(kept.iter().filter(|c| c.cfg.extra_cf).count()));
+    run.set("configurations_with_more_crypt_filters_than_stmf_strf_name", json!(menu::configs_extra_cf().iter().map(|c| c.to_json()).collect::<Vec<_>>()));
+    run.set("key_names_carrying_strings", json!(menu::KEY_MENU.to_vec()));
+    list.extend(xcf);
+    list.extend(keyf);
+    list.extend(longf);
     run.set("cases_deep_nesting_family", json!(deep.len()));
     run.set("cases_file_identifier_family", json!(idf.len()));
     run.set("cases_kept_state_direction_K", json!(kept.len()));
